@@ -47,6 +47,10 @@ type c05Cfg struct {
 	PerRequest  bool   `json:"csrf_per_request"`
 	Entry       string `json:"entry"` // "start": /oauth2/start; "page": protected page with skip-provider-button
 	EncodeState bool   `json:"encode_state,omitempty"`
+	// Advertise: which code-challenge methods the provider's discovery document lists
+	// ("" = S256 and plain, "plain" = plain only, "none" = none). The configured method is the
+	// operator's choice; what the provider advertises must not change it.
+	Advertise string `json:"provider_advertises,omitempty"`
 }
 
 func (k c05Cfg) key() string {
@@ -54,7 +58,11 @@ func (k c05Cfg) key() string {
 	if m == "" {
 		m = "none"
 	}
-	return fmt.Sprintf("pkce=%s skipnonce=%v perreq=%v entry=%s enc=%v", m, k.SkipNonce, k.PerRequest, k.Entry, k.EncodeState)
+	adv := ""
+	if k.Advertise != "" {
+		adv = " advertised=" + k.Advertise
+	}
+	return fmt.Sprintf("pkce=%s skipnonce=%v perreq=%v entry=%s enc=%v%s", m, k.SkipNonce, k.PerRequest, k.Entry, k.EncodeState, adv)
 }
 
 func (k c05Cfg) flags() []string {
@@ -334,6 +342,12 @@ func c05RunScan(seed int64, cfg c05Cfg, hist []c05Op, scanAll bool) *c05Exec {
 	world.SeedRandom(seed, 0)
 	x := &c05Exec{cfg: cfg, hist: hist, stats: map[string]int64{}, logins: []*c05Login{nil}, scanAll: scanAll}
 	x.idp = world.NewIdP()
+	switch cfg.Advertise {
+	case "plain":
+		x.idp.PKCEMethods = []string{"plain"}
+	case "none":
+		x.idp.PKCEMethods = []string{}
+	}
 	x.px = mustProxy(&ProxyCfg{Flags: cfg.flags()})
 	x.b = newBrowser(x.px, "http", "app.example.com")
 	x.idp.IDTokenSpec = x.tokenSpec
@@ -1165,6 +1179,12 @@ func c05Jobs(quick bool) []c05Job {
 	}
 	// every tier: ALL histories of <= 2 logins without any pruning (and again with pruning: the
 	// two must reach the same states and outcomes), three logins and repeated callbacks with pruning
+	// S256 configured while the provider's discovery document lists plain only / nothing
+	for _, adv := range []string{"plain", "none"} {
+		for _, per := range []bool{false, true} {
+			add(c05Cfg{Method: "S256", SkipNonce: false, PerRequest: per, Entry: "start", Advertise: adv}, 2, 1, false)
+		}
+	}
 	if quick {
 		for _, k := range base {
 			add(k, 3, 1, false)
